@@ -14,8 +14,8 @@ from harness import det_models as DM
 from harness import atoms as AT
 
 THEOREMS = {
-    'RsomeV.Props.C07': [
-    ],
+    'RsomeV.Props.AtomsSoc': ['RsomeV.AtomsSoc.abs_complete', 'RsomeV.AtomsSoc.norm1_complete', 'RsomeV.AtomsSoc.norminf_complete', 'RsomeV.AtomsSoc.norm2_complete', 'RsomeV.AtomsSoc.square_complete', 'RsomeV.AtomsSoc.sumsqr_complete', 'RsomeV.AtomsSoc.rsocone_complete', 'RsomeV.AtomsSoc.foldBounds_spec', 'RsomeV.AtomsSoc.foldBounds_perm', 'RsomeV.AtomsSoc.foldBounds_feas', 'RsomeV.AtomsSoc.vtypeVector_length'],
+    'RsomeV.Props.AtomsExp': ['RsomeV.AExp.exp_complete', 'RsomeV.AExp.log_complete', 'RsomeV.AExp.pexp_complete', 'RsomeV.AExp.plog_complete', 'RsomeV.AExp.entropy_complete', 'RsomeV.AExp.softplus_complete', 'RsomeV.AExp.kl_complete', 'RsomeV.AExp.encodeAtoms_complete'],
 }
 RULE = ("(a) pinned-argument solves `min t s.t. k*atom(A x0 + b) <= t` for every atom and a grid of parameters (integer and "
         "rational p-norm degrees, powers p/q, integer gmean weights, PSD/NSD quadratic matrices with mixed-sign entries, multipliers); "
@@ -119,6 +119,8 @@ def sample_better(ctx, d, val, xs, nsamp=4000):
 
 
 def run(ctx):
+    C.run_difftest(ctx, 'test_atoms_soc.py', ctx.n(150, 3000), 'atom encodings A/M/I/E/S/Q/rsocone, bound folding, vtype vector')
+    C.run_difftest(ctx, 'test_atoms_exp.py', ctx.n(120, 2500), 'atom encodings X/L/P/F/pexp/plog/KL')
     pinned_grid(ctx)
     for k in range(ctx.n(120, 2500)):
         seed = int(ctx.rng.integers(2 ** 31))
